@@ -30,6 +30,12 @@ type MonitorIDAccessor interface {
 	GetMonitorIDs() []string
 }
 
+// AllowFailureAccessor is an optional accessor: combining tasks uses it to find out
+// whether the binding contexts of a merged task may be dropped when the hook fails.
+type AllowFailureAccessor interface {
+	GetAllowFailure() bool
+}
+
 type HookMetadata struct {
 	HookName       string // hook name
 	Binding        string // binding name
@@ -46,6 +52,7 @@ var (
 	_ HookNameAccessor               = HookMetadata{}
 	_ BindingContextAccessor         = HookMetadata{}
 	_ MonitorIDAccessor              = HookMetadata{}
+	_ AllowFailureAccessor           = HookMetadata{}
 	_ task.MetadataDescriptionGetter = HookMetadata{}
 )
 
